@@ -1,6 +1,9 @@
 (* C13 — utilisation is computed by the documented definition and does not depend on listing order.  Theorems only. *)
 From Coq Require Import ZArith List Permutation.
-From Esc Require Import SpecCalc proofs.CalcProofs.
+From Coq Require Import Reals.
+From Flocq Require Import Core BinarySingleNaN.
+From Esc Require Import SpecCalc proofs.CalcProofs proofs.FloatProofs.
+From Esc Require Scan.
 Import ListNotations.
 Open Scope Z_scope.
 
@@ -65,6 +68,45 @@ Theorem c13_starve_reads_four_numbers : forall pods nodes,
 Proof. exact starve_cond_numbers. Qed.
 Print Assumptions c13_starve_reads_four_numbers.
 
+(* the same for the scan model's trigger itself (Scan.scale_on_starve, with nodes = the untainted nodes) *)
+Theorem c13_perm_starve : forall o maxn pods pods' nodes nodes',
+  Permutation pods pods' -> Permutation nodes nodes' ->
+  Scan.scale_on_starve o maxn (pods_usage pods) (nodes_capacity nodes pods) nodes
+  = Scan.scale_on_starve o maxn (pods_usage pods') (nodes_capacity nodes' pods') nodes'.
+Proof. exact scan_starve_perm. Qed.
+Print Assumptions c13_perm_starve.
+
+(* the percentage: for non-zero capacities calcPercentUsage is the pair of quotients pct r C = float(r) / float(C) * 100 … *)
+Theorem c13_percent_is_quotient : forall cpuReq memReq cpuCap memCap n, cpuCap <> 0 -> memCap <> 0 ->
+  calc_percent cpuReq memReq cpuCap memCap n = PctOk (pct cpuReq cpuCap) (pct memReq memCap).
+Proof. exact calc_percent_pct. Qed.
+Print Assumptions c13_percent_is_quotient.
+
+(* … which, for 1 <= r, C < 2^63, is finite (no overflow, no underflow), is exactly the value obtained by three kinds of rounding
+   (conversion of each integer — exact below 2^53 —, quotient, product; rnd = round to nearest even in binary64), and lies within
+   relative 5 * 2^-53 of the exact rational 100 r / C *)
+Theorem c13_percent : forall r C, 1 <= r < 2 ^ 63 -> 1 <= C < 2 ^ 63 ->
+  is_finite (pct r C) = true
+  /\ B2R (pct r C) = rnd (rnd (rnd (IZR r) / rnd (IZR C)) * 100)
+  /\ (Rabs (B2R (pct r C) - 100 * IZR r / IZR C) <= 5 * u * (100 * IZR r / IZR C))%R.
+Proof. exact pct_error. Qed.
+Print Assumptions c13_percent.
+
+Theorem c13_percent_small_inputs : forall r C, 1 <= r < 2 ^ 53 -> 1 <= C < 2 ^ 53 ->
+  B2R (pct r C) = rnd (rnd (IZR r / IZR C) * 100).
+Proof. exact pct_small. Qed.
+Print Assumptions c13_percent_small_inputs.
+
+Theorem c13_percent_zero_request : forall C, 1 <= C < 2 ^ 63 -> B2R (pct 0 C) = 0%R /\ is_finite (pct 0 C) = true.
+Proof. exact pct_zero. Qed.
+Print Assumptions c13_percent_zero_request.
+
+(* the integer checker evaluated on OBSERVED percent bits (SpecCalc.pct_close) accepts the model's value: a checker failure with an
+   intact correspondence is impossible for in-range inputs *)
+Theorem c13_checker_accepts_model : forall r C, 1 <= r < 2 ^ 63 -> 1 <= C < 2 ^ 63 -> pct_close (f_view (pct r C)) r C = true.
+Proof. exact pct_close_model. Qed.
+Print Assumptions c13_checker_accepts_model.
+
 (* special cases of the percentage *)
 Theorem c13_percent_all_zero : calc_percent 0 0 0 0 0 = PctOk f_zero f_zero.
 Proof. exact percent_all_zero. Qed.
@@ -106,3 +148,7 @@ Example c13_ex_tie_other_component :
   <> u_big_cpu (pods_usage [{| p_name := 102; p_node := 0; p_ctrs := [ {| c_cpu := ex_q 2 1; c_mem := ex_q 5 1 |} ]; p_inits := []; p_overhead := None;
      p_owners := []; p_annots := []; p_selector := []; p_affinity := None; p_phase := id_Pending; p_conds := [] |}; ex_pod2 ]).
 Proof. vm_compute. discriminate. Qed.
+
+(* non-vacuity of the percent theorem: 14 % of capacity is not representable: 7/50*100 reads 14.000000000000002 *)
+Example c13_ex_percent_bits : f_view (pct 7 50) = (1, false, 7881299347898369, -49).
+Proof. vm_compute. reflexivity. Qed.
